@@ -298,8 +298,10 @@ def evaluate_cases(mod, cases, timeout):
     k = 0
     stats = dict(lines=0, agree=0, bad_op=0, errors={}, tags={})
     compare = getattr(mod, 'compare', None)
+    start = 0
     for c, irs in zip(cases, impl_replies):
-        k += 1  # the reset line
+        k = start + 1  # the reset line
+        start += 1 + len(c['lines'])   # (a finding ends the case early: never carry k over from the previous case)
         stats['tags'][c.get('tag', '')] = stats['tags'].get(c.get('tag', ''), 0) + 1
         for i, (line, ir) in enumerate(zip(c['lines'], irs)):
             mr = model_flat[k] if model_flat is not None else 'no-driver'
